@@ -638,3 +638,132 @@ fn probe_decode_header_only() {
     std::mem::forget(r);
     std::mem::forget(dec);
 }
+
+// ---------------------------------------------------------------------------------------------
+// C10 / C04 / C09 at whole-decode level: WHAT the validating decoder hands to the MAC / CRC check.
+// Message (60 bytes): header | MESSAGE-INTEGRITY (20-byte value) | unknown 0x7F02 with a 3-byte value
+// + 1 padding byte (not admitted after MESSAGE-INTEGRITY: ignored) | FINGERPRINT.
+// Real MessageDecoder::decode with with_validation, real input selection (raw::get_input_text or whatever
+// the decoder uses); the two primitives are recording stubs: <MessageIntegrity as Verifiable>::verify and
+// Fingerprint::validate note the length of the text they are given, its bytes 2..4 and the byte at one
+// symbolic index, and answer an arbitrary verdict.  Decided: the MAC text is the message up to the
+// MESSAGE-INTEGRITY attribute with the length field covering it, the CRC text the message up to the
+// FINGERPRINT (padding of the ignored attribute included) with the length field covering it; the
+// ignored attribute is not returned; a verdict "no" fails the decode.
+// ---------------------------------------------------------------------------------------------
+#[derive(Clone, Copy)]
+struct TextRec {
+    calls: usize,
+    len: usize,
+    b2: u8,
+    b3: u8,
+    at_j: u8,
+}
+static mut MI_TEXT: TextRec = TextRec { calls: 0, len: 0, b2: 0, b3: 0, at_j: 0 };
+static mut FP_TEXT: TextRec = TextRec { calls: 0, len: 0, b2: 0, b3: 0, at_j: 0 };
+static mut TEXT_J: usize = 0;
+static mut TEXT_ANS: [bool; 2] = [false; 2];
+fn note(r: &mut TextRec, input: &[u8]) {
+    r.calls += 1;
+    r.len = input.len();
+    if input.len() >= 4 {
+        r.b2 = input[2];
+        r.b3 = input[3];
+    }
+    let j = unsafe { TEXT_J };
+    if j < input.len() {
+        r.at_j = input[j];
+    }
+}
+fn mi_verify_rec(_this: &MessageIntegrity, input: &[u8], _ctx: &DecoderContext) -> bool {
+    unsafe {
+        note(&mut *std::ptr::addr_of_mut!(MI_TEXT), input);
+        TEXT_ANS[0]
+    }
+}
+fn fp_validate_rec(_this: &Fingerprint, input: &[u8]) -> bool {
+    unsafe {
+        note(&mut *std::ptr::addr_of_mut!(FP_TEXT), input);
+        TEXT_ANS[1]
+    }
+}
+fn c10v<const NOT_IGNORE: bool>() {
+    const LL: usize = 60;
+    let mut buf: [u8; LL] = kani::any();
+    put_header(&mut buf, (LL - 20) as u16);
+    concrete_type(&mut buf);
+    // MESSAGE-INTEGRITY at 20 (4 + 20), unknown at 44 (4 + 3 + 1 pad), FINGERPRINT at 52 (4 + 4)
+    buf[20] = 0x00;
+    buf[21] = 0x08;
+    buf[22] = 0;
+    buf[23] = 20;
+    buf[44] = 0x7f;
+    buf[45] = 0x02;
+    buf[46] = 0;
+    buf[47] = 3;
+    buf[52] = 0x80;
+    buf[53] = 0x28;
+    buf[54] = 0;
+    buf[55] = 4;
+    let j: usize = kani::any();
+    let ans: [bool; 2] = kani::any();
+    unsafe {
+        REC_N = 0;
+        MI_TEXT.calls = 0;
+        FP_TEXT.calls = 0;
+        TEXT_J = j;
+        TEXT_ANS = ans;
+    }
+    let mut b = DecoderContextBuilder::default().with_validation();
+    if NOT_IGNORE {
+        b = b.not_ignore();
+    }
+    let dec = MessageDecoderBuilder::default().with_context(b.build()).build();
+    let r = dec.decode(&buf);
+    let (mi, fp) = unsafe { (MI_TEXT, FP_TEXT) };
+    assert!(mi.calls == 1, "C04: the admitted MESSAGE-INTEGRITY is verified once");
+    assert!(mi.len == 20, "C04: MAC text = the message up to the MESSAGE-INTEGRITY attribute");
+    assert!(mi.b2 == 0 && mi.b3 == 24, "C04: length field of the MAC text covers the integrity attribute (24 bytes), nothing after it");
+    if j < 20 && j != 2 && j != 3 {
+        assert!(mi.at_j == buf[j], "C04: every other byte of the protected prefix is authenticated as received");
+    }
+    if ans[0] {
+        assert!(fp.calls == 1, "C10: the admitted FINGERPRINT is checked once");
+        assert!(fp.len == 52, "C10: CRC text = the message up to the FINGERPRINT attribute, padding of the attribute before it included");
+        assert!(fp.b2 == 0 && fp.b3 == 40, "C10: length field of the CRC text covers the FINGERPRINT attribute");
+        if j < 52 && j != 2 && j != 3 {
+            assert!(fp.at_j == buf[j], "C10: every other byte before the FINGERPRINT is covered as received");
+        }
+        assert!(r.is_ok() == ans[1], "C10: a FINGERPRINT that does not verify fails the decode");
+    } else {
+        assert!(r.is_err(), "C04: a MESSAGE-INTEGRITY that does not verify fails the decode");
+        assert!(fp.calls == 0);
+    }
+    if r.is_ok() {
+        let n = unsafe { REC_N };
+        assert!(n == if NOT_IGNORE { 3 } else { 2 }, "C09: the attribute after MESSAGE-INTEGRITY is not returned (unless not_ignore)");
+        assert!(unsafe { REC_ATTRS[0].code } == 0x0008);
+        assert!(unsafe { REC_ATTRS[n - 1].code } == 0x8028);
+    }
+    kani::cover!(r.is_ok());
+    kani::cover!(ans[0] && r.is_err());
+    std::mem::forget(r);
+    std::mem::forget(dec);
+}
+macro_rules! c10v_inst {
+    ($($name:ident = $ni:expr;)*) => {$(
+        #[kani::proof]
+        #[kani::unwind(6)]
+        #[kani::stub(alloc::fmt::format, nofmt)]
+        #[kani::stub(<crate::types::TransactionId as std::default::Default>::default, tid_any)]
+        #[kani::stub(crate::registry::get_handler, registry_small)]
+        #[kani::stub(crate::message::StunMessageBuilder::with_attribute, rec_with_attribute)]
+        #[kani::stub(<crate::attributes::stun::MessageIntegrity as crate::attributes::Verifiable>::verify, mi_verify_rec)]
+        #[kani::stub(crate::attributes::stun::fingerprint::Fingerprint::validate, fp_validate_rec)]
+        fn $name() { c10v::<$ni>(); }
+    )*};
+}
+c10v_inst! {
+    c10v_mi_ignored_fp = false;
+    c10v_mi_kept_fp_not_ignore = true;
+}
